@@ -1,0 +1,41 @@
+// Copyright 2017-2021 Lei Ni (nilei81@gmail.com) and other contributors.
+//
+// Licensed under the Apache License, Version 2.0 (the "License");
+// you may not use this file except in compliance with the License.
+// You may obtain a copy of the License at
+//
+//     http://www.apache.org/licenses/LICENSE-2.0
+//
+// Unless required by applicable law or agreed to in writing, software
+// distributed under the License is distributed on an "AS IS" BASIS,
+// WITHOUT WARRANTIES OR CONDITIONS OF ANY KIND, either express or implied.
+// See the License for the specific language governing permissions and
+// limitations under the License.
+
+//go:build verif
+
+package rsm
+
+// This file only exists under the verif build tag; it gives external runtime
+// monitors a read-only view of the applied index and term.
+
+// VerifApplied returns the index and term of the last applied entry, and the
+// index and term made visible to other modules.
+func (s *StateMachine) VerifApplied() (index uint64, term uint64,
+	visibleIndex uint64, visibleTerm uint64) {
+	s.mu.RLock()
+	index, term = s.index, s.term
+	s.mu.RUnlock()
+	s.lastApplied.Lock()
+	visibleIndex, visibleTerm = s.lastApplied.index, s.lastApplied.term
+	s.lastApplied.Unlock()
+	return
+}
+
+// VerifOnDiskIndex returns the on disk index values tracked by the state
+// machine.
+func (s *StateMachine) VerifOnDiskIndex() (initIndex uint64, index uint64) {
+	s.mu.RLock()
+	defer s.mu.RUnlock()
+	return s.onDiskInitIndex, s.onDiskIndex
+}
